@@ -195,10 +195,13 @@ pub fn finish(meta: &CheckMeta, mut rep: Report, t0: Instant) -> i32 {
             unknown.push(v);
         }
     }
-    // non-vacuity
-    for k in &meta.must_be_positive {
-        if rep.get(k) == 0 {
-            rep.engine_errors.push(format!("non-vacuity counter `{k}` is zero"));
+    // non-vacuity: only an engine error when nothing else was found — a tree that violates the
+    // property may well starve a counter, and the violation is the verdict then
+    if unknown.is_empty() {
+        for k in &meta.must_be_positive {
+            if rep.get(k) == 0 {
+                rep.engine_errors.push(format!("non-vacuity counter `{k}` is zero"));
+            }
         }
     }
     let wall = t0.elapsed().as_secs_f64();
